@@ -31,10 +31,11 @@ _insitu = {"ctx": None, "on": False}
 
 
 def floors(tier):
+    # 'in-situ' is deliberately NOT a deciding counter: a refactoring that stops calling the exported v/w/vt/wt from the TM
+    # modules (e.g. fused helpers) makes it zero, and the dedicated sweep does not depend on it; it is reported in evidence
     q = tier == "quick"
     return {"v": 20000 if q else 2000000, "w": 20000 if q else 2000000, "vt": 20000 if q else 2000000,
-            "wt": 20000 if q else 2000000, "phi": 20000 if q else 2000000, "threshold-neighbourhood": 2000 if q else 100000,
-            "in-situ": 5000 if q else 200000}
+            "wt": 20000 if q else 2000000, "phi": 20000 if q else 2000000, "threshold-neighbourhood": 2000 if q else 100000}
 
 
 def setup(ctx):
